@@ -222,8 +222,11 @@ func (m *StringifiedMessage) encode(d *Decoder, sb *strings.Builder, tagType byt
 }
 
 func writeEscapeStr(sb *strings.Builder, str string) {
+	// the empty string, number-like text and true/false would not be read back as this string
+	needQuote := str == "" || str == "true" || str == "false" ||
+		isNumber(str[0]) || str[0] == '-' || str[0] == '+' || str[0] == '.'
 	for _, v := range []byte(str) {
-		if !isAllowedInUnquotedString(v) {
+		if needQuote || !isAllowedInUnquotedString(v) {
 			// need quote
 			dc := strings.Count(str, `"`)
 			sc := strings.Count(str, `'`)
@@ -242,6 +245,10 @@ func writeEscapeStr(sb *strings.Builder, str string) {
 			}
 			return
 		}
+	}
+	if needQuote {
+		sb.WriteString(`""`)
+		return
 	}
 	sb.WriteString(str)
 }
